@@ -44,7 +44,7 @@ def kbd(keys, layers, reqs, extra="", defcfg="", neutral=False):
 
 
 def pair(name, keys, reqs, o, n, nfiles=1, start=None, kinds=None, qmax=2, maxatt=1, settle=None, rnd_gaps=None,
-         pre=5, post=3, env=None, env_reqs=None):
+         pre=5, post=3, env=None, env_reqs=None, aux=None):
     """o, n: dict(layers=[(name,[actions])], extra=, defcfg=)"""
     def both(c, **kw):
         return kbd(keys, c["layers"], reqs, c.get("extra", ""), c.get("defcfg", ""), **kw)
@@ -62,7 +62,7 @@ def pair(name, keys, reqs, o, n, nfiles=1, start=None, kinds=None, qmax=2, maxat
     btexts = {"O": both(o, neutral=True), "N": both(n, neutral=True), "X": both(n, neutral=True)}
     first = {"O": o["layers"][0][0], "N": n["layers"][0][0], "X": n["layers"][0][0]}
     return {"name": name, "keys": list(keys), "reqs": reqs, "texts": texts, "btexts": btexts, "first": first,
-            "nfiles": nfiles, "start": start or (["O"] + ["N"] * (nfiles - 1)),
+            "aux": dict(aux or {}), "nfiles": nfiles, "start": start or (["O"] + ["N"] * (nfiles - 1)),
             "kinds": kinds or ["N", "S", "missing"], "qmax": qmax, "maxatt": maxatt, "settle": settle, "pre": pre, "post": post,
             "env": list(env if env is not None else keys) + list(env_reqs if env_reqs is not None else [q["key"] for q in reqs]),
             "rnd_gaps": rnd_gaps or [0, 1, 1, 2, 3, 5]}
@@ -129,7 +129,7 @@ def check_texts(p, wd):
     casef = os.path.join(wd, "c15_kinds_%s.json" % p["name"])
     texts = dict(p["texts"])
     texts.update({"B" + k: t for k, t in p["btexts"].items()})
-    json.dump({"texts": texts}, open(casef, "w"))
+    json.dump({"texts": texts, "aux": p.get("aux", {})}, open(casef, "w"))
     outf = casef + ".out"
     sh([HARNESS, "reload-kinds", casef, outf, wd])
     got = json.load(open(outf))
@@ -297,7 +297,7 @@ def gen_mc(p, wd, tier):
 
 
 def case_of(p, cid, script, params, lanes=True):
-    return {"id": cid, "params": params, "texts": p["texts"], "btexts": p["btexts"], "start": p["start"],
+    return {"id": cid, "params": params, "texts": p["texts"], "btexts": p["btexts"], "aux": p.get("aux", {}), "start": p["start"],
             "script": script, "lanes": lanes}
 
 
@@ -668,7 +668,7 @@ def run(tier, seed):
         assumptions=["deterministic loop stepper (1 ms per iteration) through the kanata_verif hooks",
                      "xset is not available (fault kind X: the file parses, the repeat-rate step of do_live_reload fails)",
                      "histories do not record dynamic macros, save clipboard slots or use lrld-file",
-                     "MAPPED_KEYS / device-related options are not observable through the stepper"])
+                     "MAPPED_KEYS / device-related options are not observable through the stepper; the zippychord global is observed at the OS output in three scripted scenarios only (lanes run one after the other, never two instances alive)"])
 
 
 def scenario_pairs():
@@ -726,6 +726,30 @@ def scenario_pairs():
              {"layers": [("n0", ["a", "lsft"])], "extra": "(defoverrides (lsft a) (x))"})
     add("overrides", p, [["d", c("a")], ["t", 2], ["u", c("a")], ["t", 2], ["w", 0, "N"], ["d", r], ["t", 2], ["u", r], ["t", 40],
                          ["d", c("b")], ["t", 2], ["d", c("a")], ["t", 3], ["u", c("a")], ["t", 2], ["u", c("b")], ["t", 40]])
+    # zippychord: its chords and detection state are a process-wide global outside the Kanata fields; reload must
+    # reconfigure it from the new file also when that file has no defzippy (then: no chords at all)
+    zopt = " on-first-press-chord-deadline 40 idle-reactivate-time 40"
+    zaux = {"dict1": "ab\tout\n", "dict2": "ab\tin\nbc\tup\n"}
+    plain = {"layers": [("n0", ["a", "b", "c"])]}
+
+    def zcfg(name, d):
+        return {"layers": [(name, ["a", "b", "c"])], "extra": "(defzippy %s%s)" % (d, zopt)}
+
+    def zchord(ks):
+        t = []
+        for k_ in ks:
+            t += [["d", c(k_)], ["t", 1]]
+        for k_ in ks:
+            t += [["u", c(k_)], ["t", 1]]
+        return t + [["t", 90]]
+
+    def ztype():      # the chord a+b, then b+c, then c alone
+        return zchord(["a", "b"]) + zchord(["b", "c"]) + zchord(["c"])
+    for zname, o_, n_ in (("zippy_to_none", zcfg("l0", "dict1"), plain), ("none_to_zippy", {"layers": [("l0", ["a", "b", "c"])]}, zcfg("n0", "dict1")),
+                          ("zippy_to_other_zippy", zcfg("l0", "dict1"), zcfg("n0", "dict2"))):
+        p = pair("s_" + zname, ["a", "b", "c"], R1, o_, n_, aux=zaux)
+        # the chord is typed under the old file, then the reload, then the same typing under the new file
+        add(zname, p, zchord(["a", "b"]) + [["w", 0, "N"], ["d", r], ["t", 2], ["u", r], ["t", 90]] + ztype(), settle=120)
     # a failed lrld-next, then lrld-next again (F3: relative to the file in use)
     p = pair("s_idx", ["a"], R4, {"layers": [("l0", ["a"])]}, {"layers": [("n0", ["1"])]}, nfiles=3, start=["O", "S", "N"])
     n_ = c("n")
